@@ -681,6 +681,10 @@ def beta(prog, node, depth=0):
                 if len(rns) == 1:
                     csc = Scope(prog, cf, closure_env(clo), None, None, argmap={i + 2: a for i, a in enumerate(tup[3])})
                     return beta(prog, csc._rw(rns[0][1]), depth + 1)
+            # a function item called as a value (`.map(SpaceProps::volume)`, `term(s)` with term = a fn): a plain call of that function
+            fi = fn_item_of(clo) if tup[0] == "agg" else None
+            if fi:
+                return ("call", fi, tuple(tup[3]), None)
         return n
     if k == "proj":
         from .exprs import mkproj
